@@ -186,8 +186,8 @@ def leanchecker(modules):
 # tie (A): the NodeId kernel regenerated from the Python source
 # ----------------------------------------------------------------------------------------------
 def translator_tie():
-    """Translate value_parser.cached_parse_nodeid / parse_nodeid, UANodeId.__str__, nodeset_parser.extend_namespace_map and
-    UAGraph._get_namespace_list from /repo's current source.
+    """Translate value_parser.cached_parse_nodeid / parse_nodeid, UANodeId.__str__, nodeset_parser.extend_namespace_map,
+    UAGraph._get_namespace_list and UANodeId.nodeid_type_value_to_int / xml_encode / json_encode from /repo's current source.
     identical to the committed Gen/NodeIdGen.lean -> the built tie theorems (Gen/NodeIdTie.lean: generated = hand model,
     and the C09 theorems restated for the generated definitions) are about the code as it is now;
     different -> the tie theorems are re-checked against the regenerated definitions in a scratch file;
@@ -199,14 +199,14 @@ def translator_tie():
     if rc != 0:
         return {"tie": "correspondence-only", "reason": "translator: " + (err.strip().splitlines() or ["failed"])[-1][:300]}
     if out == committed:
-        return {"tie": "regenerated-identical", "generated_definitions": ["cached_parse_nodeid", "parse_nodeid", "nodeid_str", "extend_namespace_map", "get_namespace_list"]}
+        return {"tie": "regenerated-identical", "generated_definitions": ["cached_parse_nodeid", "parse_nodeid", "nodeid_str", "extend_namespace_map", "get_namespace_list", "nodeid_type_value_to_int", "nodeid_xml_encode", "nodeid_json_encode"]}
     tie = open(os.path.join(LEAN, "OpcuaModel", "Gen", "NodeIdTie.lean"), encoding="utf-8").read()
     body = "\n".join(l for l in out.splitlines() if not l.startswith("import "))
     tie_body = "\n".join(l for l in tie.splitlines() if not l.startswith("import "))
     d = tempfile.mkdtemp(prefix="opcua_tie_")
     try:
         f = os.path.join(d, "Tie.lean")
-        open(f, "w", encoding="utf-8").write("import OpcuaModel.Gen.PyPrims\nimport OpcuaModel.Props.C09\nimport OpcuaModel.Props.C03\n" + body + "\n" + tie_body + "\n")
+        open(f, "w", encoding="utf-8").write("import OpcuaModel.Gen.PyPrims\nimport OpcuaModel.Props.C09\nimport OpcuaModel.Props.C03\nimport OpcuaModel.Props.C08\nimport OpcuaModel.Props.C10\n" + body + "\n" + tie_body + "\n")
         rc2, out2, err2 = sh(["lake", "env", "lean", f], cwd=LEAN, timeout=900)
     finally:
         shutil.rmtree(d, ignore_errors=True)
